@@ -13,6 +13,8 @@ p = root + '/DESIGN.md'
 s = open(p).read()
 head = '| id | change | needs | detected by |\n|---|---|---|---|\n'
 i = s.index(head)
-s = s[:i] + head + '\n'.join(rows) + '\n'
+j = s.find('\n## ', i)   # the table ends where the next section starts
+tail = s[j:] if j >= 0 else '\n'
+s = s[:i] + head + '\n'.join(rows) + '\n' + tail
 open(p, 'w').write(s)
 print(len(rows), 'rows')
